@@ -49,6 +49,7 @@ LEVEL = "model_checking"
 
 _CTX = None
 _FROZEN = False
+MAX_STATES = 60000      # the unchanged tree needs < 4k states per configuration
 _DEBUG = bool(__import__("os").environ.get("VERIF_DEBUG"))
 TERM = (6, 5)
 EXCS = ("RenderError", "StopIteration", "AttributeError", "KeyboardInterrupt")
@@ -476,6 +477,9 @@ def explore_cfg(col, cfg):
                     continue
                 nkey = s2.key()
                 if nkey not in seen:
+                    if len(seen) >= MAX_STATES:      # only a changed implementation with hidden state gets here
+                        stats["capped"] = True
+                        continue
                     seen.add(nkey)
                     frontier.append(h + ((op, fault),))
                     if _DEBUG and len(seen) % 200 == 0:
@@ -532,6 +536,8 @@ def _shard(items):
                 col.violation(dict(clause="exception", where="exploration", exc=type(e).__name__),
                               f"{type(e).__name__}: {e} while exploring {cfg}", dict(cfg=cfg, history=[], op=["render"], fault=None))
                 continue
+            if stats.get("capped"):
+                col.notes.add(f"state cap {MAX_STATES} hit: {cfg}")
             col.inc("states", stats["states"])
             col.inc("transitions", stats["transitions"])
             col.inc("fault_transitions", stats["fault_transitions"])
@@ -554,6 +560,9 @@ def run(ctx):
     for col in explore.pmap(_shard, items, chunks_per_proc=len(items)):
         ctx.merge(col)
     world.uninstall()
+    for note in sorted(ctx.notes):
+        if note.startswith("state cap"):
+            ctx.cap(note)
     ctx.rule = ("distinct = distinct reachable states (iterator canon, caller data status, expectation flags, fault "
                 "budget, unsettled data objects) per configuration; one evaluation = one (operation, fault position) "
                 "executed after a full replay of the history on fresh real objects; fault positions that do not exist "
